@@ -216,6 +216,7 @@ type Evaluator struct {
 	onRS func(v, e T)
 	// decimal observer applications seen (for bridge-axiom instantiation)
 	onDec func(lo, hi T)
+	onBE  func(arr, off, n T)
 	// prev(e): value of e at the head of the innermost enclosing loop
 	prev func(e Expr, env *Env) Val
 	// structure of real-valued terms (for distributing rs over + - ite)
@@ -482,7 +483,13 @@ func (ev *Evaluator) Eval(e Expr, env *Env) Val {
 				arr = ev.slice(b, env.inOld)
 			}
 			mt := b.Elem
-			return Leaf{T: T{S: fmt.Sprintf("(select %s %s)", arr.S, mkAdd(b.Off, idx).S), Sort: sortInt}, MT: &mt}
+			el := T{S: fmt.Sprintf("(select %s %s)", arr.S, mkAdd(b.Off, idx).S), Sort: sortInt}
+			if ev.vc != nil && ev.th.Mode() == "int" {
+				// type invariant of the element type (every element of a []byte is a byte)
+				el = ev.vc.define("sel", el)
+				ev.vc.assume(inRange(el, mt))
+			}
+			return Leaf{T: el, MT: &mt}
 		case Ptr:
 			return ev.Eval(&EIndex{X: &EUn{Op: "*", X: x.X}, I: x.I}, env)
 		}
@@ -601,6 +608,32 @@ func (ev *Evaluator) call(x *ECall, env *Env) Val {
 		e2.parent = env
 		e2.vars = nil
 		return ev.Eval(x.Args[0], &e2)
+	case "be":
+		// be(slice, n) or be(slice, from, n): big-endian value of n bytes of the slice starting at from
+		sl, ok := ev.Eval(x.Args[0], env).(*SliceV)
+		if !ok || ev.th.Mode() != "int" {
+			ev.fail("be: expected a byte slice (int mode)")
+		}
+		arr := sl.Arr
+		if sl.Back != nil {
+			arr = ev.slice(sl, env.inOld)
+		}
+		off := sl.Off
+		var n T
+		if len(x.Args) == 3 {
+			off = mkAdd(off, ev.specOf(ev.Eval(x.Args[1], env)))
+			n = ev.specOf(ev.Eval(x.Args[2], env))
+		} else {
+			n = ev.specOf(ev.Eval(x.Args[1], env))
+		}
+		if ev.vc != nil {
+			off = ev.vc.define("beoff", off)
+			n = ev.vc.define("ben", n)
+		}
+		if ev.onBE != nil {
+			ev.onBE(arr, off, n)
+		}
+		return Leaf{T: T{S: fmt.Sprintf("(be %s %s %s)", arr.S, off.S, n.S), Sort: sortInt}}
 	case "prev":
 		if ev.prev == nil {
 			ev.fail("prev() is only available inside loop bodies")
